@@ -209,7 +209,7 @@ pub fn gen(seed: u64) -> Replay {
     }
     let mut next_id = 0u64;
     for _ in 0..n {
-        let op = if ids.is_empty() { 0 } else { rng.weighted(&[3, 6, 6, 2, 2, 2, 2, 2, 2]) };
+        let op = if ids.is_empty() { 0 } else { rng.weighted(&[3, 6, 6, 2, 2, 2, 2, 2, 2, 2]) };
         match op {
             0 => {
                 let access = *rng.pick(&["rw", "ro", "wo"]);
@@ -251,6 +251,14 @@ pub fn gen(seed: u64) -> Replay {
                 let b = if rng.chance(70) { *rng.pick(&same) } else { rng.pick(&ids).0 };
                 steps.push(json!({"op": if op == 4 { "eq" } else { "ne" }, "a": x.0, "b": b}));
             }
+            9 => {
+                let v = match rng.below(4) {
+                    0 => 0xdead_beef,
+                    1 => 0xffff_ffff,
+                    _ => rng.next() as u32,
+                };
+                steps.push(json!({"op": "chain", "kind": rng.below(3), "a": port_pick(&mut rng, &used), "b": port_pick(&mut rng, &used), "c": port_pick(&mut rng, &used), "value": v}));
+            }
             8 => {
                 // dst.clone_from(&src) between two objects of the same type
                 let src = rng.pick(&ids).clone();
@@ -270,6 +278,34 @@ pub fn gen(seed: u64) -> Replay {
         }
     }
     Replay { property: "C18".into(), simulator: "cpusim".into(), seed, config: json!({"devices": devices, "default_dev_seed": rng.next()}), steps, violation: None, minimised_from_steps: None }
+}
+
+// ---- several accesses in one function (values live in registers across port instructions) -------
+
+#[inline(never)]
+fn chain_read_status_write(a: u16, b: u16, c: u16, wide: bool) -> (u32, u8) {
+    unsafe {
+        if wide {
+            let x = Port::<u32>::new(a).read();
+            let s = PortReadOnly::<u8>::new(b).read();
+            PortWriteOnly::<u32>::new(c).write(x);
+            (x, s)
+        } else {
+            let x = Port::<u16>::new(a).read();
+            let s = PortReadOnly::<u8>::new(b).read();
+            PortWriteOnly::<u16>::new(c).write(x);
+            (x as u32, s)
+        }
+    }
+}
+
+#[inline(never)]
+fn chain_write_narrow_then_wide(a: u16, b: u16, c: u16, x: u32) {
+    unsafe {
+        PortWriteOnly::<u8>::new(a).write(x as u8);
+        PortWriteOnly::<u16>::new(b).write(x as u16);
+        PortWriteOnly::<u32>::new(c).write(x);
+    }
 }
 
 fn mask(width: u8) -> u32 {
@@ -384,6 +420,48 @@ pub fn run(rp: &Replay, st: &mut Stats) -> Option<Violation> {
                     return Some(viol(&["C18"], "port-read-value", i, format!("device supplied {:#x} then {:#x} on port {port:#x} but the two reads returned {got:x?}", ins[0].2, ins[1].2)));
                 }
                 st.distinct_key(&[if twice { 2 } else { 3 }, acc as u64, width as u64, (port == 0) as u64, (port == 0xffff) as u64, (port > 0xff) as u64, 0]);
+            }
+            "chain" => {
+                let (a, b, c) = (s["a"].as_u64().unwrap_or(0) as u16, s["b"].as_u64().unwrap_or(1) as u16, s["c"].as_u64().unwrap_or(2) as u16);
+                let kind = s["kind"].as_u64().unwrap_or(0);
+                let x = s["value"].as_u64().unwrap_or(0) as u32;
+                let r = sut_call("chain", || match kind {
+                    0 | 1 => Some(chain_read_status_write(a, b, c, kind == 0)),
+                    _ => {
+                        chain_write_narrow_then_wide(a, b, c, x);
+                        None
+                    }
+                });
+                st.calls += 1;
+                let trace = std::mem::take(&mut world().cpu.trace);
+                st.fold_trace(&trace);
+                let got = match r {
+                    Err(m) => return Some(viol(&["C18"], "panic", i, format!("port accesses panicked: {m}"))),
+                    Ok(v) => v,
+                };
+                let bad = |what: String| Some(viol(&["C18"], "port-chain", i, format!("{what}; executed {trace:x?}")));
+                if kind <= 1 {
+                    let w = if kind == 0 { 4u8 } else { 2 };
+                    let (Some(Ev::In { width: w1, port: p1, val: v1 }), Some(Ev::In { width: 1, port: p2, val: v2 }), Some(Ev::Out { width: w3, port: p3, val: v3 }), 3) = (trace.first(), trace.get(1), trace.get(2), trace.len()) else {
+                        return bad(format!("a {}-bit read of port {a:#x}, a byte read of port {b:#x} and a {}-bit write of the first value to port {c:#x} in one function", w * 8, w * 8));
+                    };
+                    if (*w1, *p1, *p2, *w3, *p3) != (w, a, b, w, c) {
+                        return bad(format!("a {}-bit read of port {a:#x}, a byte read of port {b:#x} and a {}-bit write to port {c:#x} in one function used other widths or ports", w * 8, w * 8));
+                    }
+                    if v3 != v1 {
+                        return bad(format!("the device supplied {v1:#x} on port {a:#x}; after a byte read of port {b:#x} (device supplied {v2:#x}) the same value was written to port {c:#x}, but {v3:#x} went out on the bus"));
+                    }
+                    if got != Some((*v1, *v2 as u8)) {
+                        return bad(format!("the devices supplied {v1:#x} and {v2:#x}, the reads returned {got:x?}"));
+                    }
+                } else {
+                    let want = [Ev::Out { width: 1, port: a, val: x & 0xff }, Ev::Out { width: 2, port: b, val: x & 0xffff }, Ev::Out { width: 4, port: c, val: x }];
+                    if trace != want {
+                        return bad(format!("the low byte, the low word and then all of {x:#x} written to ports {a:#x}, {b:#x}, {c:#x} in one function must put {want:x?} on the bus"));
+                    }
+                }
+                st.count("chained_accesses_in_one_function");
+                st.distinct_key(&[9, kind, 0, 0, 0, 0, 0]);
             }
             "read" | "write" => {
                 let id = s["id"].as_u64().unwrap();
